@@ -15,6 +15,7 @@ pub mod c12;
 pub mod c13;
 pub mod c14;
 pub mod c15;
+pub mod c16;
 pub mod c17;
 pub mod c18;
 pub mod c19;
@@ -37,6 +38,7 @@ pub fn lookup(id: &str) -> Option<Property> {
         "C13" => c13::property(),
         "C14" => c14::property(),
         "C15" => c15::property(),
+        "C16" => c16::property(),
         "C17" => c17::property(),
         "C18" => c18::property(),
         "C19" => c19::property(),
